@@ -16,3 +16,70 @@ package client
 //@   ensures [C10:consumes-exactly] res == nil ==> inPos == old(inPos) + 20 + inStream[old(inPos) + 2] * 256 + inStream[old(inPos) + 3]
 //@   ensures [C10:reply-is-stun] res == nil ==> inStream[old(inPos) + 4] == 0x21 && inStream[old(inPos) + 5] == 0x12 && inStream[old(inPos) + 6] == 0xA4 && inStream[old(inPos) + 7] == 0x42
 //@   fresh streamErr
+
+//@      // ---- C18: lock discipline of the client-side code. `lockonly`: only lock balance / unlock-of-held /
+//@      // no-self-deadlock / lock order are generated for these bodies.
+//@ func (*allocation).createPermission
+//@   lockonly
+//@ func (*PeriodicTimer).IsRunning
+//@   lockonly
+//@ func (*PeriodicTimer).Start
+//@   lockonly
+//@ func (*PeriodicTimer).Stop
+//@   lockonly
+//@ func (*Transaction).Retries
+//@   lockonly
+//@ func (*Transaction).StartRtxTimer
+//@   lockonly
+//@ func (*Transaction).StartRtxTimer$1
+//@   lockonly
+//@ func (*Transaction).StopRtxTimer
+//@   lockonly
+//@ func (*TransactionMap).CloseAndDeleteAll
+//@   lockonly
+//@ func (*TransactionMap).Delete
+//@   lockonly
+//@ func (*TransactionMap).Find
+//@   lockonly
+//@ func (*TransactionMap).Insert
+//@   lockonly
+//@ func (*TransactionMap).Size
+//@   lockonly
+//@ func (*UDPConn).Close
+//@   lockonly
+//@ func (*UDPConn).maybeBind
+//@   lockonly
+//@ func (*allocation).lifetime
+//@   lockonly
+//@ func (*allocation).nonce
+//@   lockonly
+//@ func (*allocation).setLifetime
+//@   lockonly
+//@ func (*allocation).setNonce
+//@   lockonly
+//@ func (*binding).refreshedAt
+//@   lockonly
+//@ func (*binding).setRefreshedAt
+//@   lockonly
+//@ func (*bindingManager).all
+//@   lockonly
+//@ func (*bindingManager).create
+//@   lockonly
+//@ func (*bindingManager).deleteByAddr
+//@   lockonly
+//@ func (*bindingManager).deleteByNumber
+//@   lockonly
+//@ func (*bindingManager).findByAddr
+//@   lockonly
+//@ func (*bindingManager).findByNumber
+//@   lockonly
+//@ func (*bindingManager).size
+//@   lockonly
+//@ func (*permissionMap).addrs
+//@   lockonly
+//@ func (*permissionMap).delete
+//@   lockonly
+//@ func (*permissionMap).find
+//@   lockonly
+//@ func (*permissionMap).insert
+//@   lockonly
